@@ -144,7 +144,11 @@ def _is_object(v: ast.expr) -> bool:
 
 def _bind(p: Path, t: ast.expr, v: ast.expr, s: ast.stmt) -> None:
     if isinstance(t, ast.Name):
-        if _is_object(v) or t.id in p.mutated:
+        # a name that is mutated in place denotes an object of its own -
+        # unless it is bound to a view of another object (`row = m[0]`):
+        # then the mutation goes to that object, through the inlined view
+        is_view = isinstance(v, (ast.Subscript, ast.Attribute, ast.Name))
+        if _is_object(v) or (t.id in p.mutated and not is_view):
             # a mutable object keeps its name (identity matters: appends)
             p.objs[t.id] = v
             p.env.pop(t.id, None)
